@@ -542,8 +542,8 @@ class SchemaEnv:
             names.append(tn)
             src.append("theorem %s : ((lookup env %d).map (fun d => d.items.revAscending)) = some true := by decide +kernel" % (tn, code(s["name"])))
         names.append("wf_env")
-        src.append("/-- the hypothesis of the schema theorems, from the Bool checkers -/")
-        src.append("theorem wf_env : WFStructs env := wfStructs_sound env wf_structs")
+        src.append("/-- the hypothesis of the schema theorems, from the Bool checkers; instantiated: every method is found by its id and by its name -/")
+        src.append("theorem wf_env : WFEnv env ∧ (∀ p ∈ env.protos, ∀ m ∈ p.methods, findMethodById p m.id = some m ∧ findMethod p m.name = some m) := ⟨⟨wf_structs, wf_protos⟩, wfEnv_methods ⟨wf_structs, wf_protos⟩⟩")
         return "\n".join(src) + "\n", names
 
 
